@@ -255,6 +255,20 @@ func genC08(t *rapid.T, excluded *int) C08Case {
 	}
 	if c.Kind == "having" {
 		c.Having = genHavingC08(t, opNames, 1, "h", excluded)
+		// HAVING over a crosstab query: the condition is evaluated on the
+		// non-crosstab values of the output group
+		if len(c.Q.GroupBy) > 0 && rapid.IntRange(0, 2).Draw(t, "hct") == 0 {
+			var sdims []string
+			for _, d := range dims {
+				if (d == "da" || d == "dc") && !has(c.Q.GroupBy, d) {
+					sdims = append(sdims, d)
+				}
+			}
+			if len(sdims) > 0 {
+				c.Q.Crosstab = []string{rapid.SampledFrom(sdims).Draw(t, "hctd")}
+				c.Q.CrosstabT = rapid.Bool().Draw(t, "hctt")
+			}
+		}
 	}
 	return c
 }
@@ -384,6 +398,9 @@ func runC08(c *C08Case) error {
 			if !have[n] && !(star && n != "_points" && false) {
 				free.Fields = append(free.Fields, h.QField{Name: n})
 			}
+		}
+		if len(c.Q.Crosstab) > 0 {
+			return runHavingCrosstab(c, &qh, &free, now)
 		}
 		return withClock(&c.Data, "c08h", c.Data.Points, now, func(db *h.DB) error {
 			got, err := db.Query(qh.SQL(), h.QueryOpts{Mem: true})
@@ -548,6 +565,56 @@ func runC08(c *C08Case) error {
 		})
 	}
 	return nil
+}
+
+// runHavingCrosstab: HAVING on a CROSSTAB query keeps exactly those output
+// rows (key, period) for which the condition holds on the group's plain
+// (non-crosstab) values, which the same query without CROSSTAB reports.
+func runHavingCrosstab(c *C08Case, qh, free *h.Query, now int64) error {
+	plain := *free
+	plain.Crosstab = nil
+	ctFree := *c.Q
+	return withClock(&c.Data, "c08x", c.Data.Points, now, func(db *h.DB) error {
+		got, err := db.Query(qh.SQL(), h.QueryOpts{Mem: true})
+		if err != nil {
+			if h.IsInconclusive(err) {
+				return err
+			}
+			return fmt.Errorf("%s: error %v", qh.SQL(), err)
+		}
+		all, err := db.Query(ctFree.SQL(), h.QueryOpts{Mem: true})
+		if err != nil {
+			return fmt.Errorf("%s: error %v", ctFree.SQL(), err)
+		}
+		vals, err := db.Query(plain.SQL(), h.QueryOpts{Mem: true})
+		if err != nil {
+			return fmt.Errorf("%s: error %v", plain.SQL(), err)
+		}
+		for _, f := range got.Fields {
+			if f == "_having" {
+				return fmt.Errorf("%s: the helper column _having is exposed in the field list %v", qh.SQL(), got.Fields)
+			}
+		}
+		keep := map[string]bool{}
+		for _, r := range vals.Rows {
+			if evalHaving(c.Having, r.Vals) == 1 {
+				keep[fmt.Sprintf("%s@%d", r.Key, r.TS)] = true
+			}
+		}
+		var want []h.RefRow
+		for _, r := range all.Rows {
+			if keep[fmt.Sprintf("%s@%d", r.Key, r.TS)] {
+				want = append(want, r)
+			}
+		}
+		if strings.Join(all.Fields, ",") != strings.Join(got.Fields, ",") {
+			return fmt.Errorf("%s: field list %v differs from the HAVING-free query's %v", qh.SQL(), got.Fields, all.Fields)
+		}
+		if d := h.DiffRows(want, got.Rows, got.Fields); d != "" {
+			return fmt.Errorf("%s\ndiffers from the rows of %s whose group satisfies the condition (values from %s):\n%s", qh.SQL(), ctFree.SQL(), plain.SQL(), d)
+		}
+		return nil
+	})
 }
 
 func classifyC08(c *C08Case) (bool, []string) {
